@@ -271,25 +271,24 @@ func (s *muxerStream) hasContent() bool {
 }
 
 func (s *muxerStream) hasPart(segmentID uint64, partID uint64) bool {
-	if segmentID == s.nextSegmentID {
-		if partID < uint64(len(s.nextSegment.(*muxerSegmentFMP4).parts)) {
+	for _, sop := range s.segments {
+		if seg, ok := sop.(*muxerSegmentFMP4); ok && segmentID == seg.id {
+			// If the Client requests a Part Index greater than that of the final
+			// Partial Segment of the Parent Segment, the Server MUST treat the
+			// request as one for Part Index 0 of the following Parent Segment.
+			if partID >= uint64(len(seg.parts)) {
+				segmentID++
+				partID = 0
+				continue
+			}
+
 			return true
 		}
-	} else {
-		for _, sop := range s.segments {
-			if seg, ok := sop.(*muxerSegmentFMP4); ok && segmentID == seg.id {
-				// If the Client requests a Part Index greater than that of the final
-				// Partial Segment of the Parent Segment, the Server MUST treat the
-				// request as one for Part Index 0 of the following Parent Segment.
-				if partID >= uint64(len(seg.parts)) {
-					segmentID++
-					partID = 0
-					continue
-				}
+	}
 
-				return true
-			}
-		}
+	// the (possibly rolled over) request refers to the segment being written
+	if segmentID == s.nextSegmentID && s.nextSegment != nil {
+		return partID < uint64(len(s.nextSegment.(*muxerSegmentFMP4).parts))
 	}
 
 	return false
